@@ -188,6 +188,10 @@ def rule_impl(job):
                 with rule_mode():
                     b.declare_vars()
                     base_conds = [b.cond(c) for c in case['rule']['cond']]
+                    if case.get('nested_body') is not None:
+                        # the head's nested predicate-form variable C(ref=e) ALSO stands as a condition of the body: the
+                        # same matches (the existing instances of C whose field equals e), nothing more
+                        base_conds.append(b.term(case['nested_body']))
                     q = infer(entity(conclusion(case['rule']['tag']), *base_conds))
             else:
                 with symbolic_mode():
@@ -473,6 +477,14 @@ def judge_rules(report, cases, results, lines, findings, pid, nontrivial, check_
                     report.known['C05-F4'] = report.known.get('C05-F4', 0) + 1
                     report.known_text['C05-F4'] = fnd['C05-F4']['what']
                     continue
+                if key.startswith('on') and 'C04-F1' in fnd and case.get('nested_sole') and case.get('pre_take') is not None \
+                        and obs == [] and \
+                        all(sorted(r) == want for r in res['impl'].get(key.replace('on', 'off', 1), {'outs': []})['outs']):
+                    # known finding C04-F1: a predicate-form variable without a domain as the ONLY condition of a rule,
+                    # result cache on, after an abandoned evaluation: nothing is returned from then on
+                    report.known['C04-F1'] = report.known.get('C04-F1', 0) + 1
+                    report.known_text['C04-F1'] = fnd['C04-F1']['what']
+                    continue
                 what = f'conclusions differ from the ripple-down-rules reference ({key}, evaluation {ev + 1})'
                 report.violations.append((what, {'what': what, 'case': case, 'case_sexp': rule_sexp(case),
                                                  'expected': want, 'observed': obs, 'model': model,
@@ -682,6 +694,17 @@ def c11(report, rng, tier, findings):
             report.count('constructor_argument_is_a_the_subquery')
         if rng.random() < 0.25:
             case['pre_take'] = rng.randint(1, 3)
+        nested_ = [a for a in case['args'] if a[0] == 'nestedc']
+        if case.get('nested_head') and len(nested_) == 1 and i % 3 == 0:
+            case['nested_body'] = nested_[0]
+            if 'explicit' in case:
+                case['explicit'] = {**case['explicit'], 'nested_body': None}
+            if i % 2 == 1 and 'explicit' in case:
+                # ... as the ONLY condition of the body (the conditions root itself); the twin keeps the link alone
+                ex = case['explicit']
+                case['rule'] = {**case['rule'], 'cond': []}
+                case['explicit'] = {**ex, 'rule': {**ex['rule'], 'cond': ex['rule']['cond'][-1:]}}
+                case['nested_sole'] = True
         if case.get('nested_head') and i % 2 == 1:
             # half of the heads with a nested constructor argument (a variable without a domain whose constraints are
             # attached lazily, during the first evaluation): the FIRST evaluation is abandoned after one instance
@@ -718,6 +741,10 @@ def c11(report, rng, tier, findings):
         report.count('form_' + form(c))
         if c.get('nested_head'):
             report.count('nested_constructor_argument')
+        if c.get('nested_body') is not None:
+            report.count('nested_constructor_argument_also_a_body_condition')
+        if c.get('nested_sole'):
+            report.count('nested_constructor_argument_is_the_only_body_condition')
         if c.get('pre_take') is not None:
             report.count('after_an_abandoned_evaluation')
         if c.get('falsy_head'):
